@@ -214,6 +214,13 @@ func (t *textReader) nextBeforeFieldName() (bool, error) {
 // BeforeTypeAnnotations state.
 func (t *textReader) nextBeforeTypeAnnotations() (bool, error) {
 	tok := t.tok.Token()
+	if len(t.annotations) > 0 {
+		switch tok {
+		case tokenEOF, tokenCloseBracket, tokenCloseParen, tokenCloseBrace:
+			// Annotations must be followed by the value they annotate.
+			return false, &SyntaxError{"annotation is not followed by a value", t.tok.Pos() - 1}
+		}
+	}
 	switch tok {
 	case tokenEOF:
 		if t.ctx.peek() == ctxAtTopLevel {
